@@ -34,6 +34,7 @@ INVARIANT OnlyOwnSignatures
 INVARIANT RealEquivocationAccepted
 INVARIANT SlashedOnce
 INVARIANT PenaltyBounded
+INVARIANT PenaltySource
 INVARIANT BuilderEqualsValidator
 VIEW View"""
 TRACE_CFG = """SPECIFICATION TSpec
@@ -103,6 +104,10 @@ def generate(ctx):
     # validator-set changes: a genuine equivocation of each of the seven identities (incl. the new and the removed validators),
     # every kind, index from the prescribed look-back set and from the other one -- always run in full
     core += behaviours_of(ctx.tlc_must("Slash", g_cfg(2, 1, 1, 0, "sets"), name="G1_set_changes", timeout=600))
+    # ... and with the 50 % fraction, where the delegators' shares are non-zero (delegator of two validators with unfinished
+    # withdraw records against both): every single evidence of the list alphabet and every set-change case
+    core += behaviours_of(ctx.tlc_must("Slash", g_cfg(50, 1, 1, 0, "lists"), name="G1_core_f50", timeout=600))
+    core += behaviours_of(ctx.tlc_must("Slash", g_cfg(50, 1, 1, 0, "sets"), name="G1_set_changes_f50", timeout=600))
     pairs2 = behaviours_of(ctx.tlc_must("Slash", g_cfg(2, 1, 1, 0, "pairs"), name="G1_pairs_f2", timeout=600))
     pairs50 = behaviours_of(ctx.tlc_must("Slash", g_cfg(50, 1, 1, 0, "pairs"), name="G1_pairs_f50", timeout=600))
     lists50 = behaviours_of(ctx.tlc_must("Slash", g_cfg(50, 2, 2, 1, "lists"), name="G1_lists_f50", timeout=600))
@@ -111,7 +116,7 @@ def generate(ctx):
         # the core set is always run in full: every ordered list of up to two evidences of the list alphabet in one block
         # (duplicates, decoy-then-genuine and genuine-then-decoy for the same and for different validators)
         behs += core
-        behs += rnd.sample(pairs2, 80) + rnd.sample(pairs50, 40) + rnd.sample(lists50, 24) + rnd.sample(lists2, 16)
+        behs += rnd.sample(pairs2, 70) + rnd.sample(pairs50, 30) + rnd.sample(lists50, 20) + rnd.sample(lists2, 12)
     else:
         # every pair combination once (fraction alternating by a seeded coin), every list behaviour for both fractions
         p2 = {json.dumps(b["blocks"], sort_keys=True): b for b in pairs2}
